@@ -412,6 +412,13 @@ func (fr *Frame) stableRefs(re *RefExp, ms *ModSet, st *State) ([]string, bool) 
 		return []string{v.C[0]}, true
 	case "field":
 		if _, written := ms.heap[re.Base.S+"."+re.Field]; written {
+			// s.current is re-pointed inside fold's loops, but it always designates one of the
+			// eight window slots: curOK is a conjunct of wfS, which every callee that writes
+			// through s.current (tokenize and the lexers) requires at the call. The write set is
+			// therefore over-approximated by the eight slots.
+			if re.Base.S == "sqliState" && re.Field == "current" {
+				return fr.stableRefs(&RefExp{Kind: "tokany", Base: re.Base, S: "sqliToken"}, ms, st)
+			}
 			return nil, false
 		}
 		bs, ok := fr.stableRefs(re.Base, ms, st)
